@@ -86,6 +86,9 @@ func c04Scenarios(tier string) []CScenario {
 		sc = append(sc,
 			CScenario{Name: fmt.Sprintf("batch-of-%d-vs-single-in-the-middle", n), Bound: 1, Threads: [][]CReq{{attsN(keyRange(0, n), 0, 1)}, {att1(n/2, 0, 1)}}},
 			CScenario{Name: fmt.Sprintf("batch-of-%d-vs-single-at-the-end-then-batch", n), Bound: 1, Threads: [][]CReq{{attsN(keyRange(0, n), 0, 1)}, {att1(n-1, 0, 1), attsN([]int{0, n - 1}, 1, 2)}}},
+			// ... and against a batch of its first and its last key asking for the same votes: one of the two requests wins
+			// both keys, whichever comes first (a large batch is one request, not several).
+			CScenario{Name: fmt.Sprintf("batch-of-%d-vs-batch-of-its-first-and-last-key", n), Bound: 1, Threads: [][]CReq{{attsN(keyRange(0, n), 0, 1)}, {attsN([]int{0, n - 1}, 0, 1)}}},
 		)
 	}
 	// Batches with three keys in every cyclic order, under both bytewise key orders (an implementation may order lock
